@@ -948,6 +948,47 @@ pub fn c08(tier: Tier) -> ! {
             }
         }
     }
+    // cells of the two families none of the seven groups uses (a library caller can build them):
+    // chained stages leave a hexagonal and a square cell with equal sides and their angle
+    let mut odd_family_stages = 0u64;
+    {
+        use packing::wallpaper::WallpaperGroup;
+        use packing::{CrystalFamily, LineShape, PackedState, PotentialState, LJShape2};
+        fn stages<S: State>(s: S, seed: u64) -> Value {
+            let mut b = packing::BuildOptimiser::default();
+            b.steps(200).inner_steps(40).kt_start(0.3).kt_finish(0.01).max_step_size(0.3).seed(seed);
+            let a = b.build().optimise_state(s);
+            let c = b.seed(seed + 1).build().optimise_state(a);
+            serde_json::to_value(&b.seed(seed + 2).build().optimise_state(c)).unwrap_or(Value::Null)
+        }
+        for (name, fam, ops) in [
+            ("p3", CrystalFamily::Hexagonal, vec!["x,y", "-y,x-y", "-x+y,-x"]),
+            ("p1 in a hexagonal cell", CrystalFamily::Hexagonal, vec!["x,y"]),
+            ("p4", CrystalFamily::Tetragonal, vec!["x,y", "-y,x", "-x,-y", "y,-x"]),
+        ]
+        .iter()
+        {
+            let wg = WallpaperGroup { name, family: *fam, wyckoff_str: ops.clone() };
+            for seed in 0..tier.pick(3u64, 10u64) {
+                let mut docs: Vec<(Value, Value)> = vec![];
+                if let Ok(h) = PackedState::from_group(LineShape::polygon(3).unwrap(), &wg) {
+                    docs.push((serde_json::to_value(&h).unwrap_or(Value::Null), stages(h, seed)));
+                }
+                if let Ok(l) = PotentialState::from_group(LJShape2::circle(), &wg) {
+                    docs.push((serde_json::to_value(&l).unwrap_or(Value::Null), stages(l, seed)));
+                }
+                for (before, after) in docs {
+                    odd_family_stages += 1;
+                    let (b, a) = (&before["cell"], &after["cell"]);
+                    let same = |k: &str| a[k].as_f64().map(f64::to_bits) == b[k].as_f64().map(f64::to_bits);
+                    if !(same("ratio") && same("angle") && a["family"] == b["family"]) {
+                        run.fail(None, &format!("{} ({:?} cell): three chained stages changed the side ratio or the angle of the cell: {} -> {}", name, fam, b, a), json!({"engine": "document", "group": name, "state": after}));
+                    }
+                }
+            }
+        }
+    }
+    run.set("hexagonal_and_square_cell_chains", odd_family_stages);
     run.set("states", f.states);
     run.set("transitions", f.transitions);
     run.set("traces_validated_against_impl", f.transitions);
